@@ -13,16 +13,65 @@ use std::str::FromStr;
 
 pub const BADARG: &str = "badarg";
 
+/// Case prefixes that change WHICH board object a position case is asked of (PROTOCOL.md, "object prefixes"):
+/// `restored MV <case>` — the board obtained from the validated one by making MV and taking it back (same object, its
+/// incrementally maintained sets and hash as the undo left them); `reached MV <case>` — the board object that
+/// `Board::make_move(MV)` returned (answer `n/a` if the move is refused or not well-formed).
+#[derive(Clone, Copy)]
+enum Pre {
+    None,
+    Restored(Mv4),
+    Reached(Mv4),
+}
+
+thread_local! {
+    static PRE: std::cell::Cell<Pre> = std::cell::Cell::new(Pre::None);
+}
+
 pub fn run_line(line: &str) -> String {
-    match catch_unwind(AssertUnwindSafe(|| run_inner(line))) {
+    let (pre, inner): (Pre, &str) = {
+        let mut it = line.splitn(3, ' ');
+        match (it.next(), it.next(), it.next()) {
+            (Some("restored"), Some(mv), Some(rest)) => match mv4_parse(mv) {
+                Some(m) => (Pre::Restored(m), rest),
+                None => return BADARG.to_string(),
+            },
+            (Some("reached"), Some(mv), Some(rest)) => match mv4_parse(mv) {
+                Some(m) => (Pre::Reached(m), rest),
+                None => return BADARG.to_string(),
+            },
+            _ => (Pre::None, line),
+        }
+    };
+    PRE.with(|p| p.set(pre));
+    let r = match catch_unwind(AssertUnwindSafe(|| run_inner(inner))) {
         Ok(s) => s,
         Err(_) => "panic".to_string(),
-    }
+    };
+    PRE.with(|p| p.set(Pre::None));
+    r
 }
 
 fn board_of(t: &[&str]) -> Result<Board, String> {
     let raw = raw_parse(t).ok_or_else(|| BADARG.to_string())?;
-    Board::try_from(raw).map_err(|_| "invalid".to_string())
+    let mut b = Board::try_from(raw).map_err(|_| "invalid".to_string())?;
+    match PRE.with(|p| p.get()) {
+        Pre::None => Ok(b),
+        Pre::Restored(m4) => {
+            // any semilegal move (legal or not — the rollback of a refused move runs the same code) and the null move
+            if let Ok(m) = mv4_new(m4) {
+                if m == Move::NULL || m.is_semilegal(&b) {
+                    let u = unsafe { moves::make_move_unchecked(&mut b, m) };
+                    unsafe { moves::unmake_move_unchecked(&mut b, m, u) };
+                }
+            }
+            Ok(b)
+        }
+        Pre::Reached(m4) => match mv4_new(m4) {
+            Ok(m) => b.make_move(m).map_err(|_| "n/a".to_string()),
+            Err(_) => Err("n/a".to_string()),
+        },
+    }
 }
 
 macro_rules! tryb {
